@@ -52,6 +52,9 @@ func (se *specEnv) sub() *specEnv {
 
 func (se *specEnv) evalBool(x SExpr) *smt.Term {
 	v := se.eval(x)
+	if _, ok := v.(AbsentV); ok {
+		return se.e.C.Fresh("absent", smt.Bool)
+	}
 	s, ok := v.(Scalar)
 	if !ok || !s.T.Sort.IsBool() {
 		se.fail("expected boolean, got %T in %s", v, exprString(x))
@@ -516,6 +519,12 @@ func (se *specEnv) scalarOrInt(v Value, x SExpr) Scalar {
 func (se *specEnv) equal(a, b Value, x SExpr) *smt.Term {
 	e := se.e
 	c := e.C
+	if _, ok := a.(AbsentV); ok {
+		return c.Fresh("absent", smt.Bool)
+	}
+	if _, ok := b.(AbsentV); ok {
+		return c.Fresh("absent", smt.Bool)
+	}
 	if _, ok := a.(NilV); ok {
 		a, b = b, a
 	}
@@ -806,6 +815,37 @@ func (se *specEnv) call(n *SCall) Value {
 		sub := se.sub()
 		sub.st = se.old
 		return sub.eval(n.Args[0])
+	case "before", "after":
+		if len(n.Args) != 2 {
+			se.fail("%s(record, expr)", n.Fun)
+		}
+		rv, ok := se.eval(n.Args[0]).(RecV)
+		if !ok {
+			se.fail("%s: first argument must be a ghost call record", n.Fun)
+		}
+		r := rv.R
+		if r.Pre == nil {
+			// absent record: the value is irrelevant (guard is false)
+			return se.absent(n.Args[1])
+		}
+		sub := se.sub()
+		sub.vars = map[string]specVar{}
+		for k, v := range se.vars {
+			sub.vars[k] = v
+		}
+		for k, v := range r.Vars {
+			sub.vars[k] = v
+		}
+		if n.Fun == "before" {
+			sub.st = r.Pre
+			// results are not visible before the call
+		} else {
+			sub.st = r.Post
+			if sub.st == nil {
+				sub.st = se.st
+			}
+		}
+		return sub.eval(n.Args[1])
 	case "len", "cap":
 		v := se.eval(n.Args[0])
 		switch s := v.(type) {
@@ -1282,3 +1322,11 @@ func (e *Exec) opaqueKey(v Value) *smt.Term {
 	}
 	return nil
 }
+
+// AbsentV stands for an expression over a ghost call that never happened on
+// this path; comparisons with it are unconstrained.
+type AbsentV struct{}
+
+func (AbsentV) isValue() {}
+
+func (se *specEnv) absent(x SExpr) Value { return AbsentV{} }
